@@ -4,7 +4,7 @@
      tree     dir=name:mode:hexdata,name:mode:hexdata ; dir= ; ...
      names    hex joined by ','
      fault    '-' or hex call index
-   Result:  e<0|1> p<0|1> w<n> m<labels named by the error>|trace|tree
+   Result:  e<0|1> w<n> m<labels named by the error>|trace|tree
    Directories made by mkdirTemp are labelled t<k>, files made by createTemp T<k>, by order of creation. *)
 open Model
 open Common
@@ -94,7 +94,7 @@ let render (e : oerr) (pub : bool) (nwarn : int) (w : dworld) =
   let lb = { dirs = []; files = [] } in
   let tr = render_trace lb (List.rev w.dtr) in
   let tree = render_tree lb w.wt in
-  "e" ^ b01 (e <> None) ^ " p" ^ b01 pub ^ " w" ^ string_of_int nwarn ^ " m" ^ mentions lb e ^ "|" ^ tr ^ "|" ^ tree
+  "e" ^ b01 (e <> None) ^ " w" ^ string_of_int nwarn ^ " m" ^ mentions lb e ^ "|" ^ tr ^ "|" ^ tree
 
 let render_res ((r, w) : res0 * dworld) = render r.r_err r.r_pub (List.length r.r_warn) w
 
